@@ -109,11 +109,12 @@ func (r *yieldRewriter) rewriteRanges(block *ast.BlockStmt) {
 					do(cstNewIntegerIter, x)
 				}
 			case *types.Array:
-				if _, ignoreVal := r.ignoreKeyVal(n.Key, n.Value); ignoreVal && !hasCallOrRecv(n.X) && !r.isPlainVar(n.X) {
+				if _, ignoreVal := r.ignoreKeyVal(n.Key, n.Value); ignoreVal && !r.hasCallOrRecv(n.X) && !r.isPlainVar(n.X) {
 					// at most one iteration variable and len(x) is constant: the range expression isn't evaluated
 					// (for i := range p.arr is fine with a nil p, for i := range grid[9] with a short grid),
 					// only the keys 0..len(x)-1 are produced. evaluating a plain variable can't fail, it's still sliced
-					do(cstNewIntegerIter, X.Call(X.Ident("len"), n.X))
+					length := &ast.BasicLit{Kind: token.INT, Value: strconv.FormatInt(ty.Len(), 10)}
+					do(cstNewIntegerIter, length)
 					return true
 				}
 				// typing workaround for abstract generic array iter
@@ -142,12 +143,19 @@ func (r *yieldRewriter) rewriteRanges(block *ast.BlockStmt) {
 	})
 }
 
-// whether evaluating the expr calls a func or receives from a chan (len(x) of such an array isn't constant)
-func hasCallOrRecv(expr ast.Expr) (has bool) {
+// whether evaluating the expr calls a func or receives from a chan (len(x) of such an array isn't constant),
+// conversions and constant calls (len("abc"), min(1, 2), unsafe.Sizeof(x)) aren't func calls
+func (r *yieldRewriter) hasCallOrRecv(expr ast.Expr) (has bool) {
+	info := r.pkg.TypeInfo()
 	ast.Inspect(expr, func(n ast.Node) bool {
 		switch n := n.(type) {
 		case *ast.CallExpr:
-			has = true
+			if tv, ok := info.Types[n]; ok && tv.Value != nil {
+				return false // constant
+			}
+			if tv, ok := info.Types[n.Fun]; !ok || !tv.IsType() {
+				has = true
+			}
 		case *ast.UnaryExpr:
 			has = has || n.Op == token.ARROW
 		}
